@@ -630,7 +630,7 @@ def placement(rep, thorough, seed):
         for name, trace in found.items():
             rep.violation("tlc:" + name, "after Core.removeAssembly(a) has discharged a centre (or half) assembly into the spent fuel pool, its blocks keep "
                           "the cached area that was divided by the old symmetry factor: Assembly.getVolume() is a third (half) of the sum of its block "
-                          "volumes (the code conforms to the '%s' design of Placement.tla on every replayed history; TLC: %s violated)" % (chosen, name),
+                          "volumes (the code follows the '%s' design of Placement.tla; TLC: %s violated)" % (chosen, name),
                           {"direction": "tlc", "design": chosen, "trace": trace[:6000], "reproducer": REPRO_DISCHARGE})
 
 
@@ -1337,8 +1337,63 @@ def selftest():
         if self.parent:
             self.parent.calculateZCoords()
 
+    from armi.reactor import grids as _grids
+    from armi.reactor.converters import geometryConverters as gc
+    from armi.nucDirectory import nuclideBases as _nb
+
+    def remove_edges_clears_wrong(self, core):
+        if core.isFullCore:
+            return
+        edge = core.getAssembliesOnSymmetryLine(_grids.BOUNDARY_120_DEGREES)
+        for a in edge:
+            core.removeAssembly(a, discharge=False)
+        if edge:
+            for a in edge:  # seeded: the removed ones instead of the ones on the lower symmetry line
+                a.clearCache()
+        self.reset()
+
+    def volfracs_clip_negative(self):
+        children = self.getChildren()
+        numerator = [max(c.getVolume(), 0.0) for c in children]
+        denom = sum(numerator)
+        if denom == 0.0:
+            numerator = [c.getArea() for c in children]
+            denom = sum(numerator)
+        return [(ci, nu / denom) for ci, nu in zip(children, numerator)]
+
+    def enrich_natural_only(self, massFraction):
+        enriched = _nb.byName[self.material.enrichedNuclide]
+        base = [nb.name for nb in enriched.element.getNaturalIsotopics()]
+        if enriched.name not in base:
+            base.append(enriched.name)
+        before = self.getMassFracs()
+        elem = sum(v for k, v in before.items() if k in base)
+        adjusted = {enriched.name: elem * massFraction}
+        base.remove(enriched.name)
+        rest = elem - before[enriched.name]
+        for b in base:
+            frac = before.get(b, 0.0) / rest
+            if frac:
+                adjusted[b] = elem * (1 - massFraction) * frac
+        self.setMassFracs(adjusted)
+
+    def adjustdensity_setall(self, frac, adjustList, returnMass=False):
+        dens = self.getNuclideNumberDensities(adjustList)
+        new = {n: d * frac + U.TRACE_NUMBER_DENSITY for n, d in zip(adjustList, dens) if d}
+        self.setNumberDensities(new)
+        return 0.0
+
+    def scale_recurses(self, factor):
+        for c in self.getChildren(deep=True):
+            c.changeNDensByFactor(factor)
+
     P = patched
     mutants = [
+        ("round 2 seed 1: removeEdgeAssemblies clears the caches of the removed assemblies", lambda: P(gc.EdgeAssemblyChanger, "removeEdgeAssemblies", remove_edges_clears_wrong)),
+        ("round 2 seed 2: getVolumeFractions clips negative child volumes", lambda: P(A, "getVolumeFractions", volfracs_clip_negative)),
+        ("round 2 seed 3: adjustMassEnrichment trades against natural isotopes only", lambda: P(C, "adjustMassEnrichment", enrich_natural_only)),
+        ("round 2 seed 4: Block.adjustDensity applies with setNumberDensities", lambda: P(blocks.Block, "adjustDensity", adjustdensity_setall)),
+        ("round 2 seed 5: changeNDensByFactor scales every deep descendant", lambda: P(A, "changeNDensByFactor", scale_recurses)),
         ("seed 3: getVolumeFractions cached across a block height change", lambda: P(A, "getVolumeFractions", volfracs_cached)),
         ("seed 5: addMasses skips removal (negative) entries", lambda: P(A, "addMasses", addmasses_positive_only)),
         ("setMasses forgets to clear the unlisted nuclides", lambda: P(A, "setMasses", setmasses_no_clear)),
